@@ -362,6 +362,42 @@ func c13(c *Ctx) {
 		}
 	}
 
+	c.R.Rule("R13.8", "the read-locked fast path of StartWatches agrees with the write-locked decision: an iteration is skipped only when the watch exists AND its informer is active", 2,
+		"a watch lost with its informer would never be re-established by steady-state StartWatches calls")
+	if fn := c.method("internal/engine", "ControllerEngine", "StartWatches"); fn != nil {
+		var rl *ssa.Lookup
+		for _, a := range w.res[fn].Accesses {
+			if lk, ok := a.Instr.(*ssa.Lookup); ok && a.Field == "engine.controller.sources" && a.Weakest == locks.R && lk.CommaOk {
+				rl = lk
+			}
+		}
+		if rl == nil {
+			c.R.Unknown(load.FuncName(fn)+": read-locked pre-check", c.pos(fn.Pos()), "no c.sources lookup under the read lock found")
+		} else if loop := cfgx.LoopOf(rl.Block()); loop == nil {
+			c.R.Unknown(load.FuncName(fn)+": read-locked loop", c.pos(rl.Pos()), "the pre-check is not in a loop")
+		} else {
+			var existsT, activeT []cfgx.Edge
+			for _, r := range *rl.Referrers() {
+				if ex, ok := r.(*ssa.Extract); ok && ex.Index == 1 {
+					t, _ := cfgx.CondEdges(ex)
+					existsT = append(existsT, t...)
+				}
+			}
+			for b := range loop {
+				for _, in := range b.Instrs {
+					if lk, ok := in.(*ssa.Lookup); ok && !lk.CommaOk && isBoolMap(lk.X.Type()) {
+						t, _ := cfgx.CondEdges(lk)
+						activeT = append(activeT, t...)
+					}
+				}
+			}
+			by1, w1 := cfgx.LoopBypass(loop, nil, existsT, c.posf())
+			c.R.Check(!by1 && len(existsT) > 0, load.FuncName(fn)+": fast path skips only existing watches", c.pos(rl.Pos()), "an iteration continues only over watchExists==true", "the pre-check can skip a watch that does not exist", w1...)
+			by2, w2 := cfgx.LoopBypass(loop, nil, activeT, c.posf())
+			c.R.Check(!by2 && len(activeT) > 0, load.FuncName(fn)+": fast path skips only active informers", c.pos(rl.Pos()), "an iteration continues only over activeInformer[gvk]==true", "the pre-check skips a watch whose informer is not active: StartWatches returns without restarting it", w2...)
+		}
+	}
+
 	c.R.Rule("R13.6", "the collector only collects composed-resource watches", 2,
 		"stopping the XR or CompositionRevision watch leaves the XR controller blind until it is restarted")
 	if gc := c.method(pkgComposite+"/watch", "GarbageCollector", "GarbageCollectWatchesNow"); gc != nil {
